@@ -1,7 +1,25 @@
 (** Pins for C18: the statements written out, so that no theorem is weakened quietly. *)
 From TucModel Require Import Base.Bytes Model.Bounds Model.BoundsParse Model.Opt Model.Args Model.Main
-     Spec.Resolve Proofs.BoundsFacts Proofs.C06 Proofs.ParseFacts Proofs.C18 Properties.C18.
+     Spec.Resolve Spec.Fields Spec.BoundsGrammar Proofs.BoundsFacts Proofs.C06 Proofs.ParseFacts Proofs.C18 Proofs.C18Iff Properties.C18.
 Local Open Scope Z_scope.
+
+Check C18_integer_iff :
+  forall (s : bytes) (v : Z), parse_i32 s = Some v <-> int_lit s v /\ in_i32 v.
+Print Assumptions C18_integer_iff.
+
+Check C18_bound_accepted_iff :
+  forall (s : bytes) (b : ubound), parse_bound s = Some b <-> bound_text s b.
+Print Assumptions C18_bound_accepted_iff.
+
+Check C18_list_accepted_iff :
+  forall s : bytes, existsb is_brace s = false ->
+    ((exists u, parse_ublist s = Some u) <-> (exists bs, csv_text s bs)).
+Print Assumptions C18_list_accepted_iff.
+
+Check C18_list_structure :
+  forall (s : bytes) (u : ublist), existsb is_brace s = false -> parse_ublist s = Some u ->
+    exists bs, csv_text s bs /\ items u = mark_last (map Bound bs).
+Print Assumptions C18_list_structure.
 
 Check C18_accepted_bound_is_well_formed :
   forall (s : bytes) (b : ubound), parse_bound s = Some b ->
